@@ -8,7 +8,7 @@ LEVEL = 'proof'
 def run(rep):
     enginep.engine_deductive(rep, enginep.DB_FUNS + enginep.COPY_FUNS + enginep.BUILTIN_REG + ['engine.YP.query'])
     q = rep.tier == 'quick'
-    fw.standin(rep, 'difftest.py', ['run', 'F4', rep.seed, 1500 if q else 25000],
+    fw.standin(rep, 'difftest.py', ['run', 'F4', rep.seed, 6000 if q else 40000],
                'database histories (compiled code and API): answers and full database contents after every step vs list model',
                'random histories of assertz/asserta/retract(k)/retractall/clear/query over 2 predicates x 2 arities')
     fw.standin(rep, 's_dbx.py', ['run', rep.seed, 6000 if q else 24000],
